@@ -282,9 +282,11 @@ def run(ctx) -> RuleResult:
                     f"{name} must combine the per-column verdicts with "
                     f"{'&= (all columns equal)' if comb is ast.BitAnd else '|= (any column differs)'}"))
             if comb is ast.BitAnd:
-                inits = [n for n in ast.walk(func) if isinstance(n, ast.Assign) and isinstance(n.value, ast.Call)
-                         and ctx.dotted(module, n.value.func) in ("numpy.ones", "numpy.zeros", "numpy.full")]
-                ok = any(ctx.dotted(module, n.value.func) == "numpy.ones" for n in inits)
+                init_calls = [c for n in ast.walk(func) if isinstance(n, (ast.Assign, ast.AnnAssign)) and n.value is not None
+                              for c in ast.walk(n.value) if isinstance(c, ast.Call)
+                              and ctx.dotted(module, c.func) in ("numpy.ones", "numpy.zeros", "numpy.full", "numpy.empty")]
+                inits = init_calls
+                ok = bool(init_calls) and all(ctx.dotted(module, c.func) == "numpy.ones" for c in init_calls)
                 result.ob(f"{name}: conjunction starts from all-True", ok, module.loc(func), "")
                 if not ok:
                     result.add(Finding("R-CMP", module, name, inits[0] if inits else func,
